@@ -21,6 +21,7 @@ SOURCES = {
 MOVE_TARGETS = {
     "arr-index": ["a", "$i"], "arr-dash": ["a", "-"], "obj-new": ["b", "new"], "obj-existing": ["b", "c"], "root": [], "own-child": ["b", "x"],
     "child-of-arr": ["a", "$i", "x"], "missing-parent": ["zz", "x"], "nested-arr": ["b", 1, "$i"], "top-new": ["n"],
+    "longer-sibling-name": ["ab", "m"], "into-own-value": ["a", "$i", "$j"],
 }
 
 
@@ -47,6 +48,8 @@ def single_ops() -> List[tuple]:
     for t in (["a", "$i", "x"], ["a", "$i", "-"], ["a", "$i", 0], ["a", "$i", "p"]):
         out.append((f"move:containers->{'/'.join(map(str, t))}", [{"op": "move", "from": ["a", "$j"], "path": t}], {"doc": 1, "maxn": 3}))
         out.append((f"copy:containers->{'/'.join(map(str, t))}", [{"op": "copy", "from": ["a", "$j"], "path": t}], {"doc": 1, "maxn": 3}))
+    out.append(("test:str-vs-chars", [{"op": "add", "path": ["n"], "value": "$sv"}, {"op": "test", "path": ["n"], "value": "$cv"}], {"maxn": 1}))
+    out.append(("test:chars-vs-str", [{"op": "add", "path": ["n"], "value": {"k": "$cv"}}, {"op": "test", "path": ["n"], "value": {"k": "$sv"}}], {"maxn": 1}))
     out.append(("test:root", [{"op": "test", "path": [], "value": {"a": [], "b": {"c": "$v", "1": ["$w"]}, "1": "$w"}}], {"leaf": "boolint", "vleaf": "boolint", "maxn": 0}))
     return out
 
@@ -71,10 +74,10 @@ def plan(tier: str, seed: int) -> Plan:
         # quick: all add/remove/replace/test singles, a core of move/copy pairs
         keep = [o for o in items if not o[0].startswith(("move:", "copy:"))]
         mc = [o for o in items if o[0].startswith(("move:", "copy:"))]
-        core = [o for o in mc if any(s in o[0] for s in ("containers->", "->arr-dash", "->arr-index", "->own-child", "->root", "root->", "missing->obj-new",
+        core = [o for o in mc if any(s in o[0] for s in ("containers->", "->arr-dash", "->arr-index", "->own-child", "->root", "root->", "->longer-sibling-name", "missing->obj-new",
                                                           "arr-index->obj-new", "obj->top-new", "digit-name->obj-new"))]
         core.sort(key=lambda o: 0 if "containers->" in o[0] else 1)
-        items = keep + core[:52]
+        items = keep + core[:60]
     items += sequences(rng, 120 if thorough else 10, 2)
     if thorough:
         items += sequences(rng, 80, 3)
